@@ -29,7 +29,7 @@ fn plan(tier: Tier, _seed: u64) -> Plan {
 		level: "exploration",
 		rule: "one evaluation = one rendered text. Trees: depth <= 4, <= 4 operations per pipeline, <= 4 parameters, <= 3 nested sources; names/keys from the documented identifier alphabet; values bare, quoted (all four escapes and every special character inside the quotes) or bracketed lists of both; repeated keys (all values must be retained in order). Each tree is rendered with several whitespace / quoting / list-layout variants. Non-trivial: the tree has >= 2 operations or a nested source or a quoted value with an escape; distinct by rendered text. Negative texts: one certain syntax error injected into a valid text, plus unknown operations / missing / mistyped parameters through operation_from_vpl".into(),
 		assumptions: vec![
-			"the documented syntax is the one of versatiles_pipeline/src/help.md plus the value forms named in the property (bare, quoted, bracketed list); empty quoted strings and empty lists are not generated".into(),
+			"the documented syntax is the one of versatiles_pipeline/src/help.md plus the value forms named in the property (bare, quoted, bracketed list); empty quoted strings and empty lists count as well-formed values".into(),
 			"a parameter written several times contributes all its values, in order".into(),
 		],
 		min_evaluations: 5_000,
@@ -74,10 +74,10 @@ fn bare_value(rng: &mut Rng) -> String {
 	}
 }
 
-/// any non-empty string; rendered inside quotes
+/// any string (now and then the empty one); rendered inside quotes
 fn free_value(rng: &mut Rng) -> String {
 	let specials = ['\\', '"', '\n', '\t', 'n', 't', ' ', '|', ',', '[', ']', '=', '\'', '#', '/', 'ä', '€', '𝄞', '\r', '\\', '\\'];
-	let n = rng.range(1, 16) as usize;
+	let n = if rng.chance(0.05) { 0 } else { rng.range(1, 16) as usize };
 	let mut s = String::new();
 	for _ in 0..n {
 		if rng.chance(0.55) {
@@ -132,7 +132,10 @@ fn gen_node(rng: &mut Rng, depth: u32) -> Node {
 	for _ in 0..nprops {
 		let key = if !props.is_empty() && rng.chance(0.12) { props[rng.usize_below(props.len())].key.clone() } else { ident(rng) };
 		let list = rng.chance(0.3);
-		let vals = if list { (0..rng.range(1, 4)).map(|_| gen_val(rng)).collect() } else { vec![gen_val(rng)] };
+		// a bracketed list may be empty
+		let lo = if rng.chance(0.1) { 0 } else { 1 };
+		let len = rng.range(lo, 4);
+		let vals = if list { (0..len).map(|_| gen_val(rng)).collect() } else { vec![gen_val(rng)] };
 		props.push(Prop { key, list, vals });
 	}
 	let mut sources = vec![];
@@ -293,6 +296,9 @@ fn has_nested(p: &[Node]) -> bool {
 fn has_escape(p: &[Node]) -> bool {
 	p.iter().any(|n| n.props.iter().any(|pr| pr.vals.iter().any(|v| matches!(v, Val::Quoted(s) if s.contains(['\\', '"', '\n', '\t'])))) || n.sources.iter().any(|s| has_escape(s)))
 }
+fn has_empty(p: &[Node]) -> bool {
+	p.iter().any(|n| n.props.iter().any(|pr| pr.vals.is_empty() || pr.vals.iter().any(|v| v.text().is_empty())) || n.sources.iter().any(|s| has_empty(s)))
+}
 fn has_repeat(p: &[Node]) -> bool {
 	p.iter().any(|n| {
 		let mut seen = std::collections::HashSet::new();
@@ -305,7 +311,9 @@ fn has_repeat(p: &[Node]) -> bool {
 
 fn corrupt(rng: &mut Rng, valid: &str, tree: &[Node]) -> Option<(String, &'static str)> {
 	let st = Style { ws: 1, quote_all: false };
-	Some(match rng.below(12) {
+	Some(match rng.below(14) {
+		12 => (format!("{valid} {}=\"1\"{}=\"2\"", ident(rng), ident(rng)), "no whitespace between a quoted value and the next parameter"),
+		13 => (format!("{valid} {}=[1,2]{}=3", ident(rng), ident(rng)), "no whitespace between a value list and the next parameter"),
 		0 => (format!("{valid} ]"), "unbalanced closing bracket"),
 		1 => (format!("{valid} [ from_x "), "unclosed source list"),
 		2 => (format!("{valid} k=\"abc"), "unclosed quote"),
@@ -383,13 +391,16 @@ fn run_case(cx: &CaseCtx, rep: &mut Report) {
 			if has_repeat(&tree) {
 				rep.count("texts_with_repeated_keys", 1);
 			}
+			if has_empty(&tree) {
+				rep.count("texts_with_empty_values_or_lists", 1);
+			}
 			if nontrivial {
 				rep.nontrivial(fnv(text.as_bytes()));
 			}
 			match guard::catch(|| parse_vpl(&text)) {
 				Err(p) => rep.violation(&p.signature("parse_vpl"), "parser panicked on a well-formed text", json!({"text": text, "panic": p.describe()})),
 				Ok(Err(e)) => {
-					let class = if has_repeat(&tree) { "valid-rejected|repeated-key" } else if has_nested(&tree) { "valid-rejected|nested" } else { "valid-rejected|flat" };
+					let class = if has_empty(&tree) { "valid-rejected|empty-quoted-value-or-list" } else if has_repeat(&tree) { "valid-rejected|repeated-key" } else if has_nested(&tree) { "valid-rejected|nested" } else { "valid-rejected|flat" };
 					rep.violation(class, "well-formed pipeline text rejected", json!({"text": text, "error": e.to_string().chars().take(300).collect::<String>(), "tree": format!("{expect:?}")}));
 				}
 				Ok(Ok(got)) => {
@@ -439,6 +450,9 @@ fn run_case(cx: &CaseCtx, rep: &mut Report) {
 		("from_container filename=\"x\" | filter_bbox bbox=[1,2,3]".to_string(), "mistyped list parameter"),
 		("from_container filename=\"x\" | filter_bbox bbox=[a,b,c,d]".to_string(), "mistyped list parameter"),
 		("from_container filename=[a,b]".to_string(), "list where a single value is required"),
+		("from_container filename=\"x\" | filter_zoom min=[]".to_string(), "empty list where a single value is required"),
+		("from_container filename=\"x\" | filter_zoom min=[1,2]".to_string(), "list where a single value is required"),
+		("from_container filename=[]".to_string(), "empty list where a single value is required"),
 		("from_overlayed [ from_container filename=\"x\" ]".to_string(), "too few sources"),
 		("filter_zoom min=1".to_string(), "transform operation at the head of a pipeline"),
 		("from_container filename=\"x\" | from_container filename=\"y\"".to_string(), "read operation in transform position"),
